@@ -2,7 +2,8 @@
 // Compiled to LLVM IR (never linked, never run). Every identity NAME is a pair of functions
 //     extern "C" void NAME__lhs(const S *in, S *out);   // through rkcommon's public API
 //     extern "C" void NAME__rhs(const S *in, S *out);   // from the definition, or an independent rkcommon route
-// that must write equal values to out[0..n) for all inputs (as exact real-arithmetic terms).
+// that must write equal values to out[0..n) for all inputs (as exact real-arithmetic terms); a single function
+// NAME__zero must write 0 to every out slot on every path.
 // `in` is a flat array of independent scalars. S = RKV_SCALAR = float (built with -DRKCOMMON_NO_SIMD so that rcp/rsqrt are
 // plain divisions) or double.
 #include "rkcommon/math/AffineSpace.h"
@@ -67,8 +68,9 @@ ID(P1_matmul2__rhs)(const S *in, S *out) { put(out, mk2(in) * (mk2(in + 4) * V2(
 
 // ------------------------------------------------------------------------------------------ P2: 3x3
 ID(P2_det3__lhs)(const S *in, S *out) { out[0] = mk3(in).det(); }
-ID(P2_det3__rhs)(const S *a, S *out)
+ID(P2_det3__rhs)(const S *in, S *out)
 {
+  const S *a = in;
   // Leibniz formula on the column-major entries a[3*col+row]
   out[0] = a[0] * (a[4] * a[8] - a[7] * a[5]) - a[3] * (a[1] * a[8] - a[7] * a[2]) + a[6] * (a[1] * a[5] - a[4] * a[2]);
 }
@@ -81,21 +83,24 @@ ID(P2_adj3_mul__rhs)(const S *in, S *out)
 }
 
 ID(P2_mul_adj3__lhs)(const S *in, S *out) { L3 m = mk3(in); put(out, m * m.adjoint()); }
-ID(P2_mul_adj3__rhs)(const S *a, S *out)
+ID(P2_mul_adj3__rhs)(const S *in, S *out)
 {
+  const S *a = in;
   S d = a[0] * (a[4] * a[8] - a[7] * a[5]) - a[3] * (a[1] * a[8] - a[7] * a[2]) + a[6] * (a[1] * a[5] - a[4] * a[2]);
   out[0] = d; out[1] = 0; out[2] = 0; out[3] = 0; out[4] = d; out[5] = 0; out[6] = 0; out[7] = 0; out[8] = d;
 }
 
 ID(P2_transposed3__lhs)(const S *in, S *out) { put(out, mk3(in).transposed()); }
-ID(P2_transposed3__rhs)(const S *a, S *out)
+ID(P2_transposed3__rhs)(const S *in, S *out)
 {
+  const S *a = in;
   out[0] = a[0]; out[1] = a[3]; out[2] = a[6]; out[3] = a[1]; out[4] = a[4]; out[5] = a[7]; out[6] = a[2]; out[7] = a[5]; out[8] = a[8];
 }
 
 ID(P2_rows3__lhs)(const S *in, S *out) { L3 m = mk3(in); put(out, m.row0()); put(out + 3, m.row1()); put(out + 6, m.row2()); }
-ID(P2_rows3__rhs)(const S *a, S *out)
+ID(P2_rows3__rhs)(const S *in, S *out)
 {
+  const S *a = in;
   out[0] = a[0]; out[1] = a[3]; out[2] = a[6]; out[3] = a[1]; out[4] = a[4]; out[5] = a[7]; out[6] = a[2]; out[7] = a[5]; out[8] = a[8];
 }
 
@@ -107,8 +112,9 @@ ID(P2_rcp3__rhs)(const S *in, S *out) { out[0] = 1; out[1] = 0; out[2] = 0; out[
 
 // ------------------------------------------------------------------------------------------ P3: products
 ID(P3_matvec3__lhs)(const S *in, S *out) { put(out, mk3(in) * V3(in[9], in[10], in[11])); }
-ID(P3_matvec3__rhs)(const S *a, S *out)
+ID(P3_matvec3__rhs)(const S *in, S *out)
 {
+  const S *a = in;
   const S *v = a + 9;
   out[0] = a[0] * v[0] + a[3] * v[1] + a[6] * v[2];
   out[1] = a[1] * v[0] + a[4] * v[1] + a[7] * v[2];
@@ -168,8 +174,11 @@ ID(P6_basis__lhs)(const S *in, S *out)
 }
 ID(P6_basis__rhs)(const S *in, S *out)
 {
-  S e[20] = {0, 0, 0, 1, 0, 1, 0, 0, 0, 0, 1, 0, -1, 0, 0, 0, 0, 0, 0, -1};
-  for (int n = 0; n < 20; ++n) out[n] = e[n];
+  out[0] = 0; out[1] = 0; out[2] = 0; out[3] = 1;      // i*j = k
+  out[4] = 0; out[5] = 1; out[6] = 0; out[7] = 0;      // j*k = i
+  out[8] = 0; out[9] = 0; out[10] = 1; out[11] = 0;    // k*i = j
+  out[12] = -1; out[13] = 0; out[14] = 0; out[15] = 0; // i*i = -1
+  out[16] = 0; out[17] = 0; out[18] = 0; out[19] = -1; // j*i = -k
 }
 
 ID(P6_conj__lhs)(const S *in, S *out) { put(out, conj(mkq(in))); put(out + 4, mkq(in) * conj(mkq(in))); }
@@ -194,11 +203,12 @@ ID(P7_quat_compose__lhs)(const S *in, S *out) { put(out, L3(mkq(in) * mkq(in + 4
 ID(P7_quat_compose__rhs)(const S *in, S *out) { put(out, L3(mkq(in)) * L3(mkq(in + 4))); }
 
 // ------------------------------------------------------------------------------------------ P8: quaternion from matrix, each branch
-// out = the six 2x2 minors of (result, q): all zero iff result is parallel to q. Holds modulo |q|^2 = 1.
-ID(P8_quat_from_matrix__lhs)(const S *in, S *out)
+// out = the six 2x2 minors of (result, q): all zero iff result is parallel to q. The matrix handed to the
+// constructor is L3(q)/|q|^2, the exact rotation matrix of any non-zero q, so the identity is unconditional.
+ID(P8_quat_from_matrix__zero)(const S *in, S *out)
 {
   Q q = mkq(in);
-  L3 m(q);
+  L3 m = L3(q) / dot(q, q);
   Q p(m.vx, m.vy, m.vz);
   out[0] = p.r * q.i - p.i * q.r;
   out[1] = p.r * q.j - p.j * q.r;
@@ -207,7 +217,6 @@ ID(P8_quat_from_matrix__lhs)(const S *in, S *out)
   out[4] = p.i * q.k - p.k * q.i;
   out[5] = p.j * q.k - p.k * q.j;
 }
-ID(P8_quat_from_matrix__rhs)(const S *in, S *out) { for (int n = 0; n < 6; ++n) out[n] = 0; }
 
 // ------------------------------------------------------------------------------------------ P9: rotations
 ID(P9_rotate2__lhs)(const S *in, S *out) { put(out, L2::rotate(in[0])); }
@@ -232,6 +241,20 @@ ID(P9_quat_rotate__rhs)(const S *in, S *out)
   V3 u = normalize(V3(in[0], in[1], in[2]));
   S h = S(0.5) * in[3];
   out[0] = cos(h); out[1] = sin(h) * u.x; out[2] = sin(h) * u.y; out[3] = sin(h) * u.z;
+}
+
+// the matrix of the quaternion rotation by 2h about u is Rodrigues' matrix written with the half angle
+// (c = ch^2 - sh^2, s = 2 sh ch); together with P9_rotate3 this ties L3::rotate to Q::rotate up to the
+// double-angle formulas
+ID(P9_quat_matrix_rotation__lhs)(const S *in, S *out) { put(out, L3(Q::rotate(V3(in[0], in[1], in[2]), S(2) * in[3]))); }
+ID(P9_quat_matrix_rotation__rhs)(const S *in, S *out)
+{
+  V3 u = normalize(V3(in[0], in[1], in[2]));
+  S sh = sin(in[3]), ch = cos(in[3]);
+  S c = ch * ch - sh * sh, s = S(2) * sh * ch;
+  out[0] = c + (1 - c) * u.x * u.x;       out[1] = (1 - c) * u.y * u.x + s * u.z; out[2] = (1 - c) * u.z * u.x - s * u.y;
+  out[3] = (1 - c) * u.x * u.y - s * u.z; out[4] = c + (1 - c) * u.y * u.y;       out[5] = (1 - c) * u.z * u.y + s * u.x;
+  out[6] = (1 - c) * u.x * u.z + s * u.y; out[7] = (1 - c) * u.y * u.z - s * u.x; out[8] = c + (1 - c) * u.z * u.z;
 }
 
 // ------------------------------------------------------------------------------------------ P10: scale / translate / rotate about a point
@@ -264,23 +287,6 @@ ID(P11_lookat__rhs)(const S *in, S *out)
   V3 U = normalize(cross(Z, up));
   V3 V = cross(U, Z);
   put(out, U); put(out + 3, V); put(out + 6, Z); put(out + 9, eye);
-}
-
-ID(P11_frame_up__lhs)(const S *in, S *out) { put(out, frame(V3(in[0], in[1], in[2]), V3(in[3], in[4], in[5]))); }
-ID(P11_frame_up__rhs)(const S *in, S *out)
-{
-  V3 N(in[0], in[1], in[2]), up(in[3], in[4], in[5]);
-  if (abs(dot(up, N)) > 0.99f) {
-    const V3 dx0 = cross(V3(one, zero, zero), N);
-    const V3 dx1 = cross(V3(zero, one, zero), N);
-    const V3 dx  = normalize(dot(dx0, dx0) > dot(dx1, dx1) ? dx0 : dx1);
-    const V3 dy  = normalize(cross(N, dx));
-    put(out, dx); put(out + 3, dy); put(out + 6, N);
-    return;
-  }
-  V3 dx = normalize(cross(up, N));
-  V3 dy = normalize(cross(N, dx));
-  put(out, dx); put(out + 3, dy); put(out + 6, N);
 }
 
 // ------------------------------------------------------------------------------------------ P12: yaw / pitch / roll
